@@ -48,6 +48,9 @@ UNMODELLED = [
     "the wire-level theorem (wire_writeback) is about the MODEL's emission emitW, which is tied to the real compiler by per-probe "
     "comparison (T-obj), and assumes a store that conforms to the root type; the classical-set assignment emitAssignSetW is compared and "
     "executed per probe, not proved at wire level (its place-level sequence is: assign_set_lens)",
+    "the Lean place-level / wire-level model covers borrow ... return write-back (non-copyable elements) and the classical set of "
+    "assignments; the get ... set write-back of COPYABLE elements lent through generic parameters (mem_swap(xs[i], y), with_owned, user "
+    "generics over a non-copyable type variable) is covered by the execution oracle only",
     "std custom compilers that thread borrowed values other than with_owned / mem_swap / project_z (Option and Either take/swap, list ops, "
     "qsystem RNG context, barrier, wasm)",
     "comptime functions (update_packed_value, D15 is under C21), classical setitem (get/set) write-back, index expressions with side effects (C05), "
@@ -772,6 +775,8 @@ def e2e(ctx):
             skipped += E.check_program(ctx, f"place:{variant}", src, inputs, f"input:e2e cal({expr}) [{variant}] :: {src}",
                                        nontrivial=len(ks) >= 2 or "sub" in ks)
     ctx.extra["e2e_skipped"] = skipped
+    # copyable ELEMENTS lent through generic parameters (mem_swap, with_owned, user generics): classical get ... set write-back
+    E.copyable_lend(ctx)
 
 
 # ------------------------------------------------------------------ tie
